@@ -169,6 +169,11 @@ class Own:
             if b is None:
                 return None
             it, path = b
+            # zip(xs, ys): position i iterates the i-th argument; enumerate(xs): position 1 iterates xs
+            if op(it) == "call" and it[1] == ("builtin", "zip") and path and isinstance(path[0], int) and path[0] < len(it[2]) and not it[3]:
+                it, path = it[2][path[0]], path[1:]
+            elif op(it) == "call" and it[1] == ("builtin", "enumerate") and path and path[0] == 1 and it[2]:
+                it, path = it[2][0], path[1:]
             e = self._elem(it, depth)
             if e is not None and not path:
                 return e
